@@ -113,10 +113,10 @@ def names_assume(a, ps, tier):
     A = [a[0] == ps, z3.ULE(a[1], 1), z3.Or(a[3] == 0, a[3] == 3)]
     for i in (2, 4, 6, 8): A.append(z3.ULE(a[i], 6))
     for i in (5, 7): A.append(z3.ULE(a[i], 7))
-    if tier == 'quick':
-        # at most two positions deviate from u32 at a time (every pair of positions, every kind)
-        dev = [z3.If(a[i] != 0, z3.BitVecVal(1, 8), z3.BitVecVal(0, 8)) for i in range(2, 9)]
-        A.append(z3.ULE(sum(dev[1:], dev[0]), 2))
+    # at most two (thorough: three) positions deviate from u32 at a time — every pair (triple) of positions, every kind; all seven
+    # positions freely would be 6 * 10^5 descriptions
+    dev = [z3.If(a[i] != 0, z3.BitVecVal(1, 8), z3.BitVecVal(0, 8)) for i in range(2, 9)]
+    A.append(z3.ULE(sum(dev[1:], dev[0]), 2 if tier == 'quick' else 3))
     return A
 
 
